@@ -364,8 +364,10 @@ Section WalkSearch.
     fold nbrs in E. rewrite E.
     destruct (pass_keeps_ranks _ _ _ _ _ R B Hst A Hnd1 Hpo Hlow E) as [R' [B' [Hpo' Hlow']]].
     destruct (sz <=? ss_best S x).
-    - destruct (sz <=? minreq); [exact I|]. unfold yinv, xinv; cbn. repeat split; auto. exists R', B'. auto.
-    - unfold yinv, xinv; cbn. repeat split; auto. exists R', B'. auto.
+    - destruct (sz <=? minreq); [exact I|]. unfold yinv, xinv; cbn.
+      split; [split; [exact Hst1 | split; exact A]|]. split; [exact Hnd1|]. split; [exact Hnd1|]. exists R', B'. auto.
+    - unfold yinv, xinv; cbn.
+      split; [split; [exact Hst1 | split; exact Hb]|]. split; [exact Hndb|]. split; [exact Hndb|]. exists R', B'. auto.
   Qed.
 
   Lemma search_walk : forall minreq maxit limit x, yinv x ->
@@ -423,10 +425,7 @@ Proof.
   - intros j h _ Hz. rewrite zget_reset in Hz. destruct (zget (initial_state lrs) j); [|discriminate]. inversion Hz; reflexivity.
   - apply rank_reset; [intros; lia | intros []].
   - destruct (rank_final lrs st1 R' 0 t' False Hri (or_intror Hall)) as [P1 P2].
-    unfold yinv, xinv, x0; cbn. repeat split; auto using initial_indices_ok, initial_indices_nodup.
-    + apply initial_indices_ok.
-    + apply initial_indices_ok.
-    + apply initial_indices_ok.
-    + apply initial_indices_ok.
-    + eauto.
+    unfold yinv, xinv, x0; cbn.
+    split; [split; [exact Hst1 | split; apply initial_indices_ok]|].
+    split; [apply initial_indices_nodup|]. split; [apply initial_indices_nodup|]. eauto.
 Qed.
